@@ -25,8 +25,10 @@ Case make_weights(Rng& rng, std::uint64_t idx)
     static const std::size_t lens[] = {1, 2, 2, 3, 3, 4, 5, 7, 8, 13, 16, 31, 64};
     std::size_t n = (idx % 5 == 0) ? rng.range(1, 64) : lens[rng.below(sizeof lens / sizeof lens[0])];
     c.w.resize(n);
-    switch (rng.below(6))
+    switch (rng.below(8))
     {
+    case 6: c.family = "subnormal"; for (auto& x : c.w) x = std::numeric_limits<T>::denorm_min() * T(rng.range(1, 9)); break;
+    case 7: c.family = "near-overflow"; for (auto& x : c.w) x = std::ldexp(T(rng.range(1, 9)), std::numeric_limits<T>::max_exponent - 12); break;
     case 0: c.family = "small-int"; for (auto& x : c.w) x = T(rng.range(1, 9)); break;
     case 1: c.family = "dyadic"; for (auto& x : c.w) x = std::ldexp(T(1), -int(rng.below(12))); break;
     case 2: c.family = "random"; for (auto& x : c.w) x = T(rng.u01l()) + T(1e-3); break;
